@@ -216,6 +216,16 @@ def job(j):
         else:
             mm = [] if (isinstance(resp, dict) and resp.get("errors") and not w.dcalls) else ["directive literal: invalid value but hook ran / no error: %r %r" % (w.dcalls, resp)]
         flag(rec, "directive-literal", q, None, mm, resp)
+        # -- the same literal on an element that carries a second directive with its own argument: each hook gets its own dictionary
+        if rec["argsLit"]["ok"]:
+            other = 2 if ti == 1 else 1          # @p1(a: Int) / @p2(a: Int!)
+            for q in ("{ s @p%d(a: %s) @p%d(a: 41) }" % (ti, lit_text(rec["lit"], k), other), "{ s @p%d(a: 41) @p%d(a: %s) }" % (other, ti, lit_text(rec["lit"], k))):
+                resp = w.run(q)
+                st["n"] += 1
+                exp = expected_args(rec["argsLit"], k)
+                got = {name: a for name, a in w.dcalls}
+                ok = isinstance(resp, dict) and not resp.get("errors") and len(w.dcalls) == 2 and render.strict_eq(got.get("p%d" % ti), exp) and render.strict_eq(got.get("p%d" % other), {"a": 41})
+                flag(rec, "directive-literal-beside-another-directive", q, None, [] if ok else ["two directives: hooks saw %r, expected p%d %r and p%d {'a': 41} (%r)" % (w.dcalls, ti, exp, other, resp)], resp)
         # -- through a variable of the declared type (field and directive)
         q = "query ($a: %s) { s %s(a: $a) }" % (tys, f)
         resp = w.run(q, {"a": v_py})
